@@ -89,12 +89,15 @@ pub fn run_hashscale(seed: u64, rounds: u64, out: &mut RunOut) {
                 let t0 = c.verif_table();
                 let h0 = counts()[C_HASH];
                 let present = next.wrapping_sub(1 + rng.below(len0.max(1) as u64) as u32);
-                let kind = rng.below(16);
+                let mut kind = rng.below(18);
+                // mass ejections by a single insert / mutate (with survivors) are followed by a refill: keep them rare on big tables
+                if kind >= 16 && n >= 1024 && r % 8 != 0 { kind = rng.below(16); }
+                let room = c.capacity() > len0;
                 let mut replaced = false;
                 let (name, zero, may_rebuild): (&str, bool, bool) = match kind {
                     0 => { let _ = c.insert(TKey::new(next, 0), TVal::new(0)); next += 1; ("insert evicting 1", false, true) }
                     1 => { let k = 1 + rng.usize_below(5); let _ = c.insert(TKey::new(next, 0), TVal::new(base * k - base)); next += 1; ("insert evicting k", false, true) }
-                    2 => { replaced = c.contains(&KeyId(present)); let h1 = counts()[C_HASH]; let _ = c.insert(TKey::new(present, 0), TVal::new(0)); let d = counts()[C_HASH] - h1; let dep = (len0 + !replaced as usize).saturating_sub(c.len()); check_bound(out, &cfg, "insert replacing", d, dep, c.verif_table() != t0, len0, n); continue; }
+                    2 => { replaced = c.contains(&KeyId(present)); let h1 = counts()[C_HASH]; let _ = c.insert(TKey::new(present, 0), TVal::new(0)); let d = counts()[C_HASH] - h1; let dep = (len0 + !replaced as usize).saturating_sub(c.len()); let t1 = c.verif_table(); check_bound(out, &cfg, "insert replacing", d, dep, t1 != t0 && (!room || t1.0 > t0.0), len0, n); continue; }
                     3 => { c.get(&KeyId(present)); ("get", false, false) }
                     4 => { c.peek(&KeyId(present)); ("peek", false, false) }
                     5 => { c.contains(&TKey::new(present, 0)); ("contains", false, false) }
@@ -106,6 +109,24 @@ pub fn run_hashscale(seed: u64, rounds: u64, out: &mut RunOut) {
                     11 => { let mut s = 0u64; for (k, _) in c.iter() { s ^= k.uid; } for k in c.keys().rev().take(7) { s ^= k.uid; } std::hint::black_box(s); ("iter/keys", true, false) }
                     12 => { c.reserve(rng.usize_below(3 * n)); ("reserve", false, true) }
                     13 => { c.shrink_to_fit(); ("shrink_to_fit", false, true) }
+                    16 | 17 => {
+                        // k entries must go at once, 1 <= survivors: k around len/2, len-1, len-3, 1024.., random
+                        let k = match rng.below(5) { 0 => len0 / 2, 1 => len0.saturating_sub(1), 2 => len0.saturating_sub(3), 3 => 1024.min(len0.saturating_sub(1)) + rng.usize_below(9), _ => rng.usize_below(len0.max(1)) }.min(len0.saturating_sub(1)).max(1);
+                        let free = cfg.max - c.current_size();
+                        if kind == 16 { let _ = c.insert(TKey::new(next, 0), TVal::new((base * k - base + free).saturating_sub(0))); next += 1; }
+                        else { let lru_safe = c.peek_mru().map(|(k, _)| k.id).unwrap_or(present); let _ = c.mutate(&KeyId(lru_safe), |v| { v.heap = base * k + free; }); }
+                        let d = counts()[C_HASH] - h0;
+                        let t1 = c.verif_table();
+                        let dep = (len0 + (kind == 16) as usize).saturating_sub(c.len());
+                        let ok_rebuild = t1 != t0 && kind == 16 && (!room || t1.0 > t0.0);
+                        out.stats.count("c20_scale_mass_ejections");
+                        out.stats.max("c20_scale_mass_ejection_max_departures", dep as u64);
+                        check_bound(out, &cfg, if kind == 16 { "insert mass-ejecting" } else { "mutate mass-ejecting" }, d, dep, ok_rebuild, len0, n);
+                        // shrink the big entry again and refill
+                        if kind == 17 { if let Some(mru) = c.peek_mru().map(|(k, _)| k.id) { let _ = c.mutate(&KeyId(mru), |v| { v.heap = 0; }); } } else { c.remove(&KeyId(next - 1)); }
+                        while c.len() < n { let _ = c.insert(TKey::new(next, 0), TVal::new(0)); next += 1; }
+                        continue;
+                    }
                     14 => { let m = c.current_size().saturating_sub(base * rng.usize_below(4)); c.set_max_size(m); let d = counts()[C_HASH] - h0; let dep = len0 - c.len(); c.set_max_size(cfg.max); check_bound(out, &cfg, "set_max_size", d, dep, false, len0, n); continue; }
                     _ => { if r % 64 == 0 { let d = c.clone(); let dh = counts()[C_HASH] - h0; if dh != len0 as u64 { fail(out, "C20", "clone-hashes", format!("clone of {} entries computed {} key hashes", len0, dh), &cfg, "hashscale".into()); } out.stats.eval("C20", mix(&[999, n as u64])); drop(d); } continue; }
                 };
@@ -115,6 +136,8 @@ pub fn run_hashscale(seed: u64, rounds: u64, out: &mut RunOut) {
                 let rebuilt = t1 != t0;
                 let dep = (len0 + if name.starts_with("insert") { 1 } else { 0 }).saturating_sub(c.len());
                 if zero { if d != 0 { fail(out, "C20", "hash-free", format!("{} on {} entries computed {} key hashes", name, len0, d), &cfg, "hashscale".into()); } out.stats.eval("C20", mix(&[kind, n as u64, 0])); continue; }
+                // an insertion may rebuild only to grow: the table had no room left, or it ends up with more buckets
+                let may_rebuild = may_rebuild && (!name.starts_with("insert") || !room || t1.0 > t0.0);
                 check_bound(out, &cfg, name, d, dep, rebuilt && may_rebuild, len0, n);
             }
             // refill for the next hasher / keep the table bounded
